@@ -318,3 +318,155 @@ func runTrapPost(p *core.Prog) *core.Result {
 	}
 	return res
 }
+
+// R-TRAPINVARIANT: two proxy invariant checks whose shape is decidable.
+//   - deleteProperty (spec 10.5.10 steps 11-14): when the trap answered true and the target has the
+//     property, *both* tests apply - the property must be configurable and the target extensible.
+//     In proxyDeleteCheck every normally returning path on which trapResult is true and targetProp
+//     is non-nil therefore passes the target.self.isExtensible() call.
+//   - ownKeys (10.5.11 step 16-17): a target key missing from the trap result must be tested for
+//     configurability on the *target's* property: the value type-asserted to *valueProperty must be
+//     able to come from target.getOwnProp (key iterators of most object kinds carry no value).
+var TrapInvariant = &core.Rule{Name: "R-TRAPINVARIANT", Run: runTrapInvariant,
+	Doc: "must-pass-through with excusing edges in (*proxyObject).proxyDeleteCheck; value-origin check of the configurability test in (*proxyObject).proxyOwnKeys"}
+
+func runTrapInvariant(p *core.Prog) *core.Result {
+	res := core.NewResult("R-TRAPINVARIANT", 2)
+	fn, err := p.GojaMethod("proxyObject", "proxyDeleteCheck")
+	if err != nil {
+		return res.Fail(err)
+	}
+	var trapResult, targetProp *ssa.Parameter
+	for _, prm := range fn.Params {
+		switch prm.Name() {
+		case "trapResult":
+			trapResult = prm
+		case "targetProp":
+			targetProp = prm
+		}
+	}
+	if trapResult == nil || targetProp == nil {
+		return res.Failf("unresolved anchor: parameters trapResult/targetProp of proxyDeleteCheck")
+	}
+	hasExt := func(b *ssa.BasicBlock) bool {
+		for _, in := range b.Instrs {
+			if c, ok := in.(*ssa.Call); ok && c.Call.IsInvoke() && c.Call.Method.Name() == "isExtensible" {
+				return true
+			}
+		}
+		return false
+	}
+	anyExt := false
+	for _, b := range fn.Blocks {
+		anyExt = anyExt || hasExt(b)
+	}
+	type state struct {
+		b       *ssa.BasicBlock
+		excused bool
+	}
+	seen := map[state]bool{}
+	var bad *ssa.BasicBlock
+	var walk func(b *ssa.BasicBlock, excused bool)
+	walk = func(b *ssa.BasicBlock, excused bool) {
+		st := state{b, excused}
+		if seen[st] || bad != nil {
+			return
+		}
+		seen[st] = true
+		if hasExt(b) || p.FirstNoReturn(b) >= 0 {
+			return
+		}
+		if len(b.Instrs) == 0 {
+			return
+		}
+		switch last := b.Instrs[len(b.Instrs)-1].(type) {
+		case *ssa.Return:
+			if !excused {
+				bad = b
+			}
+			return
+		case *ssa.If:
+			t, f := excused, excused
+			if core.Origin(last.Cond) == ssa.Value(trapResult) {
+				f = true // trap answered false
+			}
+			if x, nonNil, ok := core.IsNilCompare(last.Cond); ok && core.Origin(x) == ssa.Value(targetProp) {
+				if nonNil {
+					f = true
+				} else {
+					t = true
+				}
+			}
+			walk(b.Succs[0], t)
+			walk(b.Succs[1], f)
+			return
+		}
+		for _, s := range b.Succs {
+			walk(s, excused)
+		}
+	}
+	walk(fn.Blocks[0], false)
+	key := "(*proxyObject).proxyDeleteCheck:extensibility test on every has-property path"
+	switch {
+	case !anyExt:
+		res.Bad(key, p.Pos(fn.Pos()), "proxyDeleteCheck never consults target.self.isExtensible()")
+	case bad != nil:
+		res.Bad(key, p.Pos(bad.Instrs[len(bad.Instrs)-1].Pos()), "a path with trapResult == true and targetProp != nil returns without testing target.self.isExtensible(): a proxy may then report an existing (plain data) property of a non-extensible target as deleted")
+	default:
+		res.OK(key, p.Pos(fn.Pos()), "only the trapResult==false and targetProp==nil paths skip the test")
+	}
+
+	ok2, err := p.GojaMethod("proxyObject", "proxyOwnKeys")
+	if err != nil {
+		return res.Fail(err)
+	}
+	vp, err := p.GojaType("valueProperty")
+	if err != nil {
+		return res.Fail(err)
+	}
+	n := 0
+	core.AllInstrs(ok2, func(in ssa.Instruction) {
+		ta, ok := in.(*ssa.TypeAssert)
+		if !ok || core.NamedOf(ta.AssertedType) != vp {
+			return
+		}
+		n++
+		key := fmt.Sprintf("(*proxyObject).proxyOwnKeys:configurability test #%d reads the target's property", n)
+		fromTarget := false
+		seen := map[ssa.Value]bool{}
+		var visit func(v ssa.Value)
+		visit = func(v ssa.Value) {
+			v = core.Origin(v)
+			if seen[v] {
+				return
+			}
+			seen[v] = true
+			switch x := v.(type) {
+			case *ssa.Phi:
+				for _, e := range x.Edges {
+					visit(e)
+				}
+			case *ssa.Call:
+				name := ""
+				if x.Call.IsInvoke() {
+					name = x.Call.Method.Name()
+				} else if sc := x.Call.StaticCallee(); sc != nil {
+					name = sc.Name()
+				}
+				if strings.HasPrefix(name, "getOwnProp") {
+					fromTarget = true
+				}
+			}
+		}
+		visit(ta.X)
+		if fromTarget {
+			res.OK(key, p.Pos(ta.Pos()), "the tested value can come from target.getOwnProp(name)")
+		} else {
+			res.Bad(key, p.Pos(ta.Pos()), "the non-configurable test for a key the trap omitted looks only at the key iterator's cached value, which most object kinds leave nil: an ownKeys trap can then hide a non-configurable own property of the target")
+		}
+	})
+	if n == 0 {
+		res.Bad("(*proxyObject).proxyOwnKeys:configurability test", p.Pos(ok2.Pos()), "no *valueProperty test left in proxyOwnKeys: omitted non-configurable keys are not detected")
+	}
+	return res
+}
